@@ -34,12 +34,13 @@ var c05Events = []c05Ev{
 	{name: "subscribe(a,q1)", kind: 1},
 	{name: "helper-publish(q1)", kind: 2},
 	{name: "disconnect", kind: 3},
-	{name: "disconnect(expiry3)", kind: 4},
+	{name: "disconnect(expiry3)", kind: 4, expiry: 3},
 	{name: "abrupt-close", kind: 5},
 	{name: "TerminateSession", kind: 6},
 	{name: "advance(4s)", kind: 7, adv: 4 * time.Second},
 	{name: "advance(6s)", kind: 7, adv: 6 * time.Second},
 	{name: "advance(21s)", kind: 7, adv: 21 * time.Second},
+	{name: "disconnect(expiry0)", kind: 4, expiry: 0},
 }
 
 var c05Reduced = []int{3, 1, 6, 7, 8, 10, 12, 13, 14}
@@ -235,8 +236,8 @@ func c05Run(c *explore.Ctx, cfgExpiry time.Duration, alpha []int, seq []int) int
 					if version != refmqtt.V5 || expiry == 0 {
 						return
 					}
-					cl.Send(&refmqtt.Packet{Type: refmqtt.DISCONNECT, Props: &refmqtt.Props{SessionExpiry: harness.U32(3)}})
-					expiry = 3
+					cl.Send(&refmqtt.Packet{Type: refmqtt.DISCONNECT, Props: &refmqtt.Props{SessionExpiry: harness.U32(uint32(ev.expiry))}})
+					expiry = ev.expiry
 				} else if ev.kind == 3 {
 					cl.Send(&refmqtt.Packet{Type: refmqtt.DISCONNECT})
 				}
